@@ -21,4 +21,7 @@ pub enum Error {
     /// An unexpected RPSL object type was received.
     #[error("unexpected RPSL object {0}")]
     RpslObjectClass(RpslObject),
+    /// `PeerAS` cannot be resolved, because there is no peering context to take it from.
+    #[error("resolving 'PeerAS' is not supported")]
+    UnsupportedPeerAs,
 }
